@@ -41,12 +41,21 @@ def make(case):
     elif kind == "perm":
         p = rs.permutation(nsrc)
         est = ref[p] + 0.3 * rs.randn(*shape)
+    elif kind == "ambiguous":
+        # two estimates dominated by the SAME reference: est0 = ref0 + 0.05*ref1 + noise, est1 = ref0 + 0.5*ref1 (clean).
+        # Measured on this construction (10/10 seeds): mean SIR prefers the identity order, mean SDR the swapped one, so a
+        # permutation search that maximises anything but mean SIR returns the wrong order.
+        est = 0.2 * rs.randn(*shape) + ref
+        if nsrc >= 2:
+            c0, c1 = [(0.05, 0.5), (0.02, 0.45)][rs.randint(2)]
+            est[0] = ref[0] + c0 * ref[1] + 1.0 * rs.randn(*shape[1:])
+            est[1] = ref[0] + c1 * ref[1]
     else:
         est = rs.randn(*shape)
     return ref, est
 
 
-def base_params(draw, max_nsrc=3, max_nchan=2, kinds=("mix", "mix", "filter", "perm", "perm", "noise", "copy")):
+def base_params(draw, max_nsrc=3, max_nchan=2, kinds=("mix", "mix", "filter", "perm", "perm", "noise", "copy", "ambiguous", "ambiguous")):
     return {"nsrc": draw(st.integers(1, max_nsrc)), "nchan": draw(st.integers(1, max_nchan)), "extra": draw(st.integers(0, 300)),
             "seed": draw(st.integers(0, 2 ** 31 - 1)), "kind": draw(st.sampled_from(list(kinds)))}
 
